@@ -263,9 +263,10 @@ fn reference(t: &Tree, d: &str, budget: u64, max_reg: f64, threads: usize, clip:
     util::catch(move || {
         let game = tree::build(&t2).map_err(|e| format!("{e:?}"))?;
         verif::reset();
-        let (mut strat, _) = game
+        let (mut strat, bounds) = game
             .solve(cfr::method("Full"), if budget == 0 { u64::MAX } else { budget }, max_reg, threads, Some(cfr::params(&par)))
             .map_err(|e| format!("{e:?}"))?;
+        let bound = bounds.regret_bound();
         let before = strat.get_info().regret();
         let mut pruned = strat.clone();
         pruned.truncate(clip);
@@ -289,7 +290,7 @@ fn reference(t: &Tree, d: &str, budget: u64, max_reg: f64, threads: usize, clip:
         let one: Vec<(String, Vec<(String, f64)>)> = one.map(|(i, a)| (i.clone(), a.map(|(x, p)| (x.clone(), p)).collect())).collect();
         let two: Vec<(String, Vec<(String, f64)>)> = two.map(|(i, a)| (i.clone(), a.map(|(x, p)| (x.clone(), p)).collect())).collect();
         Ok(json!({"one": conv(&mut one.into_iter()), "two": conv(&mut two.into_iter()), "clipped": clipped,
-            "regret_before": before, "regret_after": after}))
+            "regret_before": before, "regret_after": after, "bound": bound}))
     })
     .and_then(|r| r)
 }
@@ -529,6 +530,28 @@ pub fn record(args: &Args) {
                                 let (obs, argv) = execute(&exe, &dir, sink.id + 1, &r.text, route, &opt_vec(&opts));
                                 let tol = if threads == "1" { 1e-12 } else { 1e-9 };
                                 emit_out(&mut sink, &mode, name, &t, r, route, &opts, &obs, &argv, Some((group, tol, k > 0)), refsol.clone());
+                                runs += 1;
+                            }
+                        }
+                    }
+                    // DEFAULTS: budget, discount and clip threshold left out (documented defaults: 1000 iterations, dcfr, 0)
+                    // with a regret threshold the default budget does not reach - half the bound after 1000 iterations -: the
+                    // run must be the library's 1000-iteration run
+                    if variant == 0 {
+                        if let Ok(base) = reference(&t, "dcfr", 1000, 0.0, 1, 0.0) {
+                            let b = base["bound"].as_f64().unwrap_or(0.0);
+                            if b.is_finite() && b > 1e-6 {
+                                let r = format!("{}", b * 0.5);
+                                group += 1;
+                                let refsol = reference(&t, "dcfr", 1000, r.parse().unwrap(), 1, 0.0).ok();
+                                let mut opts: BTreeMap<&str, String> = BTreeMap::new();
+                                opts.insert("m", "full".into());
+                                opts.insert("p", "1".into());
+                                opts.insert("r", r);
+                                let routes = [(&efg, Route { flag: "default", src: "stdin", ext: "", to_file: false }), (&js, Route { flag: "default", src: "file", ext: ".json", to_file: false })];
+                                let (rd, route) = &routes[gi % 2];
+                                let (obs, argv) = execute(&exe, &dir, sink.id + 1, &rd.text, route, &opt_vec(&opts));
+                                emit_out(&mut sink, &mode, name, &t, rd, route, &opts, &obs, &argv, Some((group, 1e-12, false)), refsol);
                                 runs += 1;
                             }
                         }
